@@ -480,7 +480,7 @@ def resolve_result(ex):
 
 contract(Contract(
     target=M + ":_resolve_files",
-    props=["C17", "C16"],
+    props=["C17", "C16", "C18"],
     params={"options": "obj:Options"},
     setup=resolve_setup,
     types={"result": "list[str]"},
@@ -494,7 +494,7 @@ contract(Contract(
     at_call={"FileResolver.resolve": {"no_stdin_marker": Clause("all(p != '-' for p in arg_paths)", props=["C17"])}},
     raises=("FileNotFoundError",),
     ensures={
-        "config_from_options": Clause(resolver_config_from_options, props=["C16", "C17"]),
+        "config_from_options": Clause(resolver_config_from_options, props=["C16", "C17", "C18"]),
         "bypass": Clause(resolve_bypass, props=["C17"]),
         "stdin_first": Clause(resolve_result, props=["C17"]),
     },
